@@ -77,6 +77,10 @@ def run_calls(k, calls):
         want = [x for x in flat(ref)]
         obs.append(("call %d: result shape" % ci, len(got) == len(want)))
         for i, (g, w) in enumerate(zip(got, want)):
+            plain = lincomb_of(g) is None and not hasattr(g, "lc")
+            obs.append(("call %d: returned value %d is a plain number, not a wire object" % (ci, i), plain))
+            if not plain:
+                continue
             if isinstance(w, float) or isinstance(g, float) or type(g).__name__ == "SymReal" or type(w).__name__ == "SymReal":
                 obs.append(("call %d: returned value %d equals the plain function's" % (ci, i), g == w))
             else:
@@ -169,6 +173,15 @@ def b_twice(k, x, y):
     return (s, s, {"again": s})
 
 
+def b_dictn(k, d, xs):
+    # containers inside dicts, on the way in and on the way out
+    return {"tot": {"s": [d["w"][0] * xs[0] + d["b"][1]["c"]]}, "l": [d["w"][1] * xs[1], (d["b"][0] * 2,)]}
+
+
+def b_listd(k, ds):
+    return [{"q": [ds[0]["a"] * ds[1]["a"]]}, ({"r": ds[0]["a"] + ds[1]["b"][0]},)]
+
+
 def b_const(k, x):
     return 5
 
@@ -183,6 +196,9 @@ PROGRAMS = {
     "pair": ([(b_pair, lambda k: (k.v("x"), k.v("y")))], ("x", "y")),
     "list": ([(b_list, lambda k: ([k.v("x"), k.v("y"), k.v("z")], 3))], ("x", "y", "z")),
     "dict": ([(b_dict, lambda k: ({"a": k.v("x"), "b": k.v("y")},))], ("x", "y")),
+    "dict_nested": ([(b_dictn, lambda k: ({"w": [k.v("x"), k.v("y")], "b": (k.v("z"), {"c": 2})}, [3, k.v("x")]))],
+                    ("x", "y", "z")),
+    "list_of_dicts": ([(b_listd, lambda k: ([{"a": k.v("x")}, {"a": k.v("y"), "b": [k.v("z")]}],))], ("x", "y", "z")),
     "nested": ([(b_nested, lambda k: ((k.v("x"), (k.v("y"), k.v("z"))),))], ("x", "y", "z")),
     "mixed_out": ([(b_mixed, lambda k: (1.5, k.v("x")))], ("x",)),
     "mixed_in": ([(b_mixed_in, lambda k: (k.v("x"), 2.25, k.v("y")))], ("x", "y")),
